@@ -107,3 +107,17 @@ pub fn compute_expression_replace_with(
 }
 
 pub use crate::rules::verif_compute_expression::process_expression_stub as compute_expression_process_expression_stub;
+
+/// `remove_if_expression`'s per-branch step (`Processor::convert_if_branch`).
+pub fn remove_if_expression_convert_branch(
+    condition: crate::nodes::Expression,
+    result: crate::nodes::Expression,
+    else_result: crate::nodes::Expression,
+) -> crate::nodes::Expression {
+    crate::rules::verif_convert_if_branch(condition, result, else_result)
+}
+
+/// `remove_if_expression`'s whole per-expression step (folds the elseif branches).
+pub fn remove_if_expression_process(expression: &mut crate::nodes::Expression) {
+    crate::rules::verif_remove_if_expression_process(expression)
+}
